@@ -48,6 +48,7 @@ var swaps = map[token.Token][]token.Token{
 func main() {
 	repo := flag.String("repo", "", "checkout")
 	out := flag.String("out", "", "output dir")
+	flag.BoolVar(&ops2, "ops2", false, "second operator set: drop an operand of && / ||, remove a !, swap the first two call arguments, swap two returned identifiers, < <-> >")
 	flag.Parse()
 	dirs := flag.Args()
 	os.MkdirAll(*out, 0o755)
@@ -94,6 +95,8 @@ func main() {
 	fmt.Println("mutants:", id)
 }
 
+var ops2 bool
+
 type site struct {
 	node   ast.Node
 	parent ast.Node
@@ -102,6 +105,9 @@ type site struct {
 }
 
 func sites(file *ast.File) []site {
+	if ops2 {
+		return sites2(file)
+	}
 	var out []site
 	inConst := false
 	ast.Inspect(file, func(n ast.Node) bool {
@@ -180,6 +186,9 @@ func exprString(fset *token.FileSet, n ast.Node) string {
 }
 
 func apply(fset *token.FileSet, file *ast.File, k, variant int) (meta, bool) {
+	if ops2 {
+		return apply2(fset, file, k, variant)
+	}
 	ss := sites(file)
 	if k >= len(ss) {
 		return meta{}, false
@@ -235,6 +244,173 @@ func apply(fset *token.FileSet, file *ast.File, k, variant int) (meta, bool) {
 		l := *s.list
 		// replace by an empty statement to keep positions/comments stable
 		l[s.idx] = &ast.EmptyStmt{Semicolon: s.node.Pos(), Implicit: false}
+	}
+	m.After = exprString(fset, s.node)
+	return m, true
+}
+
+// ---- second operator set ----
+
+type site2 struct {
+	kind   string
+	node   ast.Node
+	parent ast.Node
+	field  *ast.Expr
+}
+
+func sites2(file *ast.File) []site {
+	var out []site
+	ast.Inspect(file, func(n ast.Node) bool {
+		switch t := n.(type) {
+		case *ast.BinaryExpr:
+			if t.Op == token.LAND || t.Op == token.LOR || t.Op == token.LSS || t.Op == token.GTR {
+				out = append(out, site{node: t})
+			}
+		case *ast.UnaryExpr:
+			if t.Op == token.NOT {
+				out = append(out, site{node: t})
+			}
+		case *ast.CallExpr:
+			if len(t.Args) >= 2 {
+				_, l0 := t.Args[0].(*ast.BasicLit)
+				_, l1 := t.Args[1].(*ast.BasicLit)
+				if !l0 && !l1 {
+					out = append(out, site{node: t})
+				}
+			}
+		case *ast.ReturnStmt:
+			if len(t.Results) == 2 {
+				_, a := t.Results[0].(*ast.Ident)
+				_, b := t.Results[1].(*ast.Ident)
+				if a && b {
+					out = append(out, site{node: t})
+				}
+			}
+		}
+		return true
+	})
+	return out
+}
+
+func replaceExpr(file *ast.File, old, repl ast.Expr) bool {
+	done := false
+	ast.Inspect(file, func(n ast.Node) bool {
+		if done || n == nil {
+			return false
+		}
+		switch t := n.(type) {
+		case *ast.BinaryExpr:
+			if t.X == old {
+				t.X, done = repl, true
+			} else if t.Y == old {
+				t.Y, done = repl, true
+			}
+		case *ast.UnaryExpr:
+			if t.X == old {
+				t.X, done = repl, true
+			}
+		case *ast.ParenExpr:
+			if t.X == old {
+				t.X, done = repl, true
+			}
+		case *ast.IfStmt:
+			if t.Cond == old {
+				t.Cond, done = repl, true
+			}
+		case *ast.ForStmt:
+			if t.Cond == old {
+				t.Cond, done = repl, true
+			}
+		case *ast.AssignStmt:
+			for i, r := range t.Rhs {
+				if r == old {
+					t.Rhs[i], done = repl, true
+				}
+			}
+		case *ast.ReturnStmt:
+			for i, r := range t.Results {
+				if r == old {
+					t.Results[i], done = repl, true
+				}
+			}
+		case *ast.CallExpr:
+			for i, r := range t.Args {
+				if r == old {
+					t.Args[i], done = repl, true
+				}
+			}
+		case *ast.ValueSpec:
+			for i, r := range t.Values {
+				if r == old {
+					t.Values[i], done = repl, true
+				}
+			}
+		case *ast.KeyValueExpr:
+			if t.Value == old {
+				t.Value, done = repl, true
+			}
+		}
+		return !done
+	})
+	return done
+}
+
+func apply2(fset *token.FileSet, file *ast.File, k, variant int) (meta, bool) {
+	ss := sites2(file)
+	if k >= len(ss) {
+		return meta{}, false
+	}
+	s := ss[k]
+	m := meta{Line: fset.Position(s.node.Pos()).Line, Before: exprString(fset, s.node)}
+	switch t := s.node.(type) {
+	case *ast.BinaryExpr:
+		switch t.Op {
+		case token.LAND, token.LOR:
+			keep := t.X
+			if variant == 1 {
+				keep = t.Y
+			} else if variant > 1 {
+				return m, false
+			}
+			m.Op = "drop-operand " + t.Op.String()
+			if !replaceExpr(file, t, keep) {
+				return m, false
+			}
+			m.After = exprString(fset, keep)
+			return m, true
+		case token.LSS:
+			if variant > 0 {
+				return m, false
+			}
+			t.Op, m.Op = token.GTR, "binop <->>"
+		case token.GTR:
+			if variant > 0 {
+				return m, false
+			}
+			t.Op, m.Op = token.LSS, "binop >-><"
+		}
+	case *ast.UnaryExpr:
+		if variant > 0 {
+			return m, false
+		}
+		m.Op = "remove-not"
+		if !replaceExpr(file, t, t.X) {
+			return m, false
+		}
+		m.After = exprString(fset, t.X)
+		return m, true
+	case *ast.CallExpr:
+		if variant > 0 {
+			return m, false
+		}
+		t.Args[0], t.Args[1] = t.Args[1], t.Args[0]
+		m.Op = "swap-args"
+	case *ast.ReturnStmt:
+		if variant > 0 {
+			return m, false
+		}
+		t.Results[0], t.Results[1] = t.Results[1], t.Results[0]
+		m.Op = "swap-results"
 	}
 	m.After = exprString(fset, s.node)
 	return m, true
